@@ -353,6 +353,14 @@ class C08(DiffProperty):
         big = [65534, 65535, 65536, 65537]
         for f, a, ch in long_cases(lens) + long_cases(big if tier == "thorough" else big[1:3]):
             cases.append(" ".join([cstr(f), cstr(a), "~", chunks_tok(ch)]))
+        # path buffer capacity boundaries (the path lives in a 64/192/320... byte array): section names that fill the
+        # buffer exactly when an anonymous or a further section is opened, at one and two levels
+        for total in list(range(58, 70)) + list(range(186, 198)) + list(range(314, 326)):
+            cases.append(" ".join(["N", "N", "~", chunks_tok([(0x61, total), list(b"{ { x = 1; } }\n")])]))
+            cases.append(" ".join(["N", "N", "~", chunks_tok([(0x61, total), list(b" {\n{\nx = 1\n}\ny = 2\n}\n")])]))
+            k = total // 2
+            cases.append(" ".join(["N", "N", "~", chunks_tok([(0x61, k), list(b" { "), (0x62, total - k - 1), list(b" { { x = 1; } z { } } }\n")])]))
+            cases.append(" ".join([cstr(b"[ ] = #"), "N", "~", chunks_tok([[0x5b], (0x61, total), list(b"]\nk=1\n[b]\n")])]))
         # structured + mutated + malformed streams
         for i in range(n):
             f = rng.choice(FORMATS)
